@@ -47,7 +47,7 @@ CHECKS["C05"] = {
     "families": ["xw", "xo"],
     "trusted_base": [ZW, ZR, "hash/crc32 is modelled by a bitwise CRC-32 (theorems hold for any 32-bit checksum)"],
     "assumptions": [ZW, ZR, "sizes below 2^63 (int64)"],
-    "level_text": "partial, main parts full: Lean theorems C05_config_refused (NewWriter refuses exactly the invalid configurations), C05_index_roundtrip (for every configuration and Write/Flush schedule, Reader.Reset's parsing of the emitted bytes - footer found by backward search, index chain walked back to offset 0, CRC/totals/sizes checked - reconstructs exactly the writer's records), C05_data_accounted; with C07_readseeker (reading any well-formed layout returns the plaintext) and C06_plain_deflate. Not yet proved: that the reconstructed layout satisfies C07's WellFormed hypothesis for the inflater (the glue between C05_index_roundtrip and C07), and split-independence of the emitted bytes; both are decided by the oracle sweep (real Writer -> real Reader round trip, re-split writes must give identical bytes).",
+    "level_text": "full on the models except split-independence: Lean theorems C05_config_refused (NewWriter refuses exactly the invalid configurations), C05_index_roundtrip (for every configuration and Write/Flush schedule, Reader.Reset's parsing of the emitted bytes - footer found by backward search, index chain walked back to offset 0, CRC/totals/sizes checked - reconstructs exactly the writer's records), C05_data_accounted, and C05_roundtrip (under the compressor contract ZChunkOK the layout those records describe over the emitted bytes is well-formed for the written data, hence every Seek/Read sequence on the reader model behaves like a ReadSeeker over the written data and the end position is its length - C07 applied to the writer's output); with C06_plain_deflate. Not yet proved: split-independence of the emitted bytes (it needs the compressor as a function of the chunk data; decided by the oracle sweep: re-split writes must give identical bytes).",
     "level_note": "Trusted: Lean kernel; writer, open and reader models tied to /repo by correspondence (families xw, xo, xr); compress/flate both ways is a contract.",
     "explanation": "index round trip theorem + round-trip oracle",
 }
